@@ -689,6 +689,10 @@ def rule_mask_policy(ctx):
 
 
 def run(ctx):
+    # what the application configures is what the connection uses: options handed to setProtocolOptions reach the factory attribute of their name
+    from .common import rule_option_setters
+    rule_option_setters(ctx, "C15.5-configured-mask-options-reach-the-factory", [('WebSocketServerFactory', 'maskServerFrames', 'bool'), ('WebSocketServerFactory', 'requireMaskedClientFrames', 'bool'), ('WebSocketServerFactory', 'applyMask', 'bool'), ('WebSocketClientFactory', 'maskClientFrames', 'bool'), ('WebSocketClientFactory', 'acceptMaskedServerFrames', 'bool'), ('WebSocketClientFactory', 'applyMask', 'bool')],
+                        "the masking policy in force is then not the configured one")
     rule_python_maskers(ctx)
     rule_c_maskers(ctx)
     rule_factories(ctx)
